@@ -23,6 +23,8 @@ func (r *rwRT) ruleFilePasses() {
 	pos := r.w.FnPos(fn)
 	in := r.interp(rwConfig{root: fn, boundaries: map[string]bool{"rewriteFile": false, "attachComment": true, "rewriteForRanges": true, "rewriteIter": true, "mkYieldFromRewriter": true, "mkYieldRewriter": true, "collectYieldFunc": true}})
 	in.MaxDepth = 10
+	in.MaxVisits = 12 // the passes may be run from a table in a loop
+	in.SnapClosures = true
 	// only the closures of rewriteFile itself are followed; every named function it calls is a step
 	passNames := map[string]bool{"attachComment": true, "rewriteForRanges": true, "rewriteIter": true, "mkYieldFromRewriter": true, "mkYieldRewriter": true, "collectYieldFunc": true}
 	in.Inline = func(f *ssa.Function) bool {
@@ -49,7 +51,19 @@ func (r *rwRT) ruleFilePasses() {
 			case e.Kind == "call" && e.Fn != nil && e.Fn.Name() == "Apply" && len(e.Args) == 3:
 				// which pass does the post callback run?
 				name := "?"
-				if cl, ok := e.Args[2].(Closure); ok && len(cl.Bind) > 0 {
+				if len(e.Bound) > 0 {
+					// what the callback's captured variables held when Apply was called
+					for _, b := range e.Bound {
+						for _, known := range []string{"attachComment", "mkYieldFromRewriter", "rewriteForRanges", "mkYieldRewriter", "rewriteIter"} {
+							if strings.Contains(b, known) {
+								name = b
+							}
+						}
+					}
+					if name == "?" {
+						name = strings.Join(e.Bound, "+")
+					}
+				} else if cl, ok := e.Args[2].(Closure); ok && len(cl.Bind) > 0 {
 					inner := o.St.Obj(cl.Bind[0])
 					var fv AV
 					if inner != nil {
@@ -148,7 +162,14 @@ func (r *rwRT) ruleFilePasses() {
 			}
 		}
 		var missing []string
-		for _, f := range []string{"coImportedName", "seqImportedName", "yieldFuncDecls", "yieldFuncLits", "comments"} {
+		// the per-file fields are discovered, not listed: every field of the rewriter that some function other
+		// than its constructor stores to or map-updates (import names, generator sets, collected comments …)
+		perFile := r.writtenRewriterFields()
+		if len(perFile) < 3 {
+			c.und("RW.FILEPASSES", "per-file state reset before the first pass", pos, fmt.Sprintf("only %d per-file fields of the rewriter discovered: %v", len(perFile), perFile))
+			break
+		}
+		for _, f := range perFile {
 			if !reset[f] {
 				missing = append(missing, f)
 			}
@@ -340,4 +361,72 @@ func (r *rwRT) ruleAllFiles(strict bool) {
 	default:
 		c.und("RW.ALLFILES", "file visited twice", pos, "no guard recognised in front of rewriteFile")
 	}
+}
+
+
+// writtenRewriterFields: names of the fields of type rewriter that are stored to, or whose map is updated,
+// by any function of the package other than the constructor mkRewriter (resolved through SSA field addresses).
+func (r *rwRT) writtenRewriterFields() []string {
+	pkg := r.w.SSA[pathRw]
+	seen := map[string]bool{}
+	isRewriter := func(t types.Type) bool {
+		if p, ok := t.Underlying().(*types.Pointer); ok {
+			t = p.Elem()
+		}
+		n, ok := t.(*types.Named)
+		return ok && n.Obj().Name() == "rewriter" && n.Obj().Pkg() != nil && n.Obj().Pkg().Path() == pathRw
+	}
+	fieldOf := func(v ssa.Value) string {
+		fa, ok := v.(*ssa.FieldAddr)
+		if !ok || !isRewriter(fa.X.Type()) {
+			return ""
+		}
+		return fieldName(fa.X.Type(), fa.Field)
+	}
+	var visit func(fn *ssa.Function)
+	visit = func(fn *ssa.Function) {
+		if fn == nil || fn.Name() == "mkRewriter" {
+			return
+		}
+		for _, b := range fn.Blocks {
+			for _, ins := range b.Instrs {
+				switch x := ins.(type) {
+				case *ssa.Store:
+					if f := fieldOf(x.Addr); f != "" {
+						seen[f] = true
+					}
+				case *ssa.MapUpdate:
+					if u, ok := x.Map.(*ssa.UnOp); ok {
+						if f := fieldOf(u.X); f != "" {
+							seen[f] = true
+						}
+					}
+				}
+			}
+		}
+		for _, a := range fn.AnonFuncs {
+			visit(a)
+		}
+	}
+	for _, m := range pkg.Members {
+		if fn, ok := m.(*ssa.Function); ok {
+			visit(fn)
+		}
+		if t, ok := m.(*ssa.Type); ok {
+			for _, recv := range []types.Type{t.Type(), types.NewPointer(t.Type())} {
+				ms := r.w.Prog.MethodSets.MethodSet(recv)
+				for i := 0; i < ms.Len(); i++ {
+					if f := r.w.Prog.MethodValue(ms.At(i)); f != nil && f.Pkg == pkg {
+						visit(f)
+					}
+				}
+			}
+		}
+	}
+	var out []string
+	for f := range seen {
+		out = append(out, f)
+	}
+	sort.Strings(out)
+	return out
 }
